@@ -144,6 +144,18 @@ func NewEx(conf *Config, fset *token.FileSet, files ...*ast.File) (ret Result, e
 			onConflict(fset, item.c, firsts, i, at)
 		})
 	}
+	if len(ctx.errs) == 0 {
+		// Reject left recursion: a rule that can reach itself before consuming a token
+		// would recurse forever when matching. First panics with a RecursiveError
+		// (recovered above); so far only the rules used inside a choice were checked.
+		for _, f := range files {
+			for _, decl := range f.Decls {
+				if decl, ok := decl.(*ast.Rule); ok {
+					rules[decl.Name.Name].First(nil)
+				}
+			}
+		}
+	}
 	ret = Result{doc, rules}
 	return
 }
